@@ -1,5 +1,6 @@
 """C01 — memory safety and clean teardown (DESIGN.md §4.1). The whole property is not decidable here; each
 clause below is a necessary condition whose breach is an out-of-bounds access, a use-after-free or a leak."""
+import re
 from ..facts import load, S, strip, nodes, is_lit, lit_name, root_of, AnalysisBroken
 from ..report import Result
 from .. import cfg as C
@@ -216,6 +217,74 @@ def c01p(db, res, own):
     res.floor('C01.r', 'integer stores into parser state records', nr, 100)
     if not [o for o in res.obs if o['rule'] == 'C01.r']:
         res.holds('C01.r', 'parser-state-widths', '%d integer stores into parser state records, none narrows a non-constant value' % nr, '')
+    # ---- C01.s a local that the function frees on one exit is freed (or handed on) on every exit
+    res.rule('C01.s', 'what a function frees on one way out it frees on every way out: a local that holds a fresh allocation and is released by the function itself on some path is, on every path from the successful allocation to a return, released, stored somewhere, returned or handed to a callee that may keep it (a pointer-to-const parameter does not keep)')
+    from ..nullness import Nullness, FREEISH
+    nl_ = Nullness(db)
+    ns = 0
+    for name, f in sorted(db.fn.items()):
+        if not f.blocks or f.loc.startswith('htp/lzma/'):
+            continue
+        allocs = []
+        for b, i, st in f.stmts():
+            for d in nodes(st, lambda y: y.get('k') == 'decl'):
+                for v in d['vars']:
+                    ini = strip(v['init']) if v.get('init') is not None else None
+                    if ini is not None and ini.get('k') == 'call' and ini.get('callee') in nl_.mayfail and '*' in (v.get('t') or '*'):
+                        allocs.append((b, i, v['name'], ini))
+            for a in nodes(st, lambda y: y.get('k') == 'assign' and y['op'] == '=' and strip(y['l']).get('k') == 'var' and strip(y['l']).get('decl') == 'local'):
+                r = strip(a['r'])
+                if r is not None and r.get('k') == 'call' and r.get('callee') in nl_.mayfail:
+                    allocs.append((b, i, strip(a['l'])['name'], r))
+        for b, i, L, call in allocs:
+            def frees(st, L=L):
+                return any(c2.get('callee') and FREEISH(c2['callee']) and c2.get('args') and P.K(c2['args'][0]) == L for c2 in nodes(st, lambda y: y.get('k') == 'call'))
+            if not any(frees(st) for bb, ii, st in f.stmts()):
+                continue                                   # not released here: owned by someone else (C01.c / C18)
+            ns += 1
+            bad = None
+            try:
+                paths = P.enum_paths_seq(f, (b, i), max_paths=20000)
+            except AnalysisBroken:
+                res.unknown('C01.s', '%s:%s' % (name, L), 'too many paths', call['loc'])
+                continue
+            for atoms, events, end, seq in paths:
+                if end[0] != 'return':
+                    continue
+                if any(a_[0] == L and a_[1] == '==' and a_[2] == '0' for a_, e_ in atoms):
+                    continue                               # the allocation failed on this path
+                done = False
+                for x in seq[1:]:
+                    if x[0] != 'stmt':
+                        continue
+                    st = x[3]
+                    if frees(st):
+                        done = True
+                    for a in nodes(st, lambda y: y.get('k') == 'assign'):
+                        if strip(a['r']) is not None and strip(a['r']).get('k') == 'var' and strip(a['r'])['name'] == L and not (strip(a['l']).get('k') == 'var' and strip(a['l'])['name'] == L):
+                            done = True                      # stored / aliased (the pointer itself, not a value computed from it)
+                        if strip(a['l']).get('k') == 'var' and strip(a['l'])['name'] == L and a is not None and x is not seq[0]:
+                            done = True                      # re-bound (the old value was dealt with by the re-binding idiom: x = f(x))
+                    for d_ in nodes(st, lambda y: y.get('k') == 'decl'):
+                        for v_ in d_['vars']:
+                            if v_.get('init') is not None and v_['name'] != L and strip(v_['init']).get('k') == 'var' and strip(v_['init'])['name'] == L:
+                                done = True                  # aliased by another local (`bstr *name = field;`): that local's business
+                    for c2 in nodes(st, lambda y: y.get('k') == 'call'):
+                        if c2.get('callee') and FREEISH(c2['callee']):
+                            continue
+                        callee = db.fn.get(c2.get('callee') or '')
+                        for ai, a in enumerate(c2.get('args') or []):
+                            if strip(a).get('k') == 'var' and strip(a)['name'] == L:
+                                pt = callee.params[ai]['t'] if callee is not None and ai < len(callee.params) else ''
+                                if not pt.startswith('const ') or 'void' in pt or re.search(r'add|push|append|replace|register|insert', c2.get('callee') or ''):
+                                    done = True              # may keep it (containers take `const void *` elements)
+                    if st.get('k') == 'return' and st.get('e') is not None and any(strip(v).get('name') == L for v in nodes(st['e'], lambda y: y.get('k') == 'var')):
+                        done = True
+                if not done:
+                    bad = end[3]
+            res.check(bad is None, 'C01.s', '%s:%s=%s()' % (name, L, call.get('callee')), 'released or handed on on every way out',
+                      '%s releases `%s` (from %s) on some of its exits but returns without releasing it on another: the block is unreachable after that return - one leak per message that takes this path' % (name, L, call.get('callee')), (bad or call).get('loc', f.loc))
+    res.floor('C01.s', 'locals that the function itself releases', ns, 10)
     res.rule('C01.p', 'owning fields own: a field that receives allocations somewhere (and is released with its record) is never assigned the value read from another record\'s field - a borrowed pointer - except at the tabled hand-overs')
     n = 0
     for name, f in sorted(db.fn.items()):
